@@ -20,15 +20,15 @@ import (
 // Exit codes: 0 held, 1 violation, 2 harness/build/watchdog trouble.
 
 type workerMsg struct {
-	Type    string           `json:"type"` // "violation" | "done"
-	Replay  *Replay          `json:"replay,omitempty"`
-	Runs    uint64           `json:"runs,omitempty"`
-	C       map[string]int64 `json:"c,omitempty"`
-	Max     map[string]int64 `json:"max,omitempty"`
-	SigFile string           `json:"sigfile,omitempty"`
-	Samples []json.RawMessage `json:"samples,omitempty"`
-	TimedOut bool            `json:"timed_out,omitempty"`
-	Detail   string          `json:"detail,omitempty"`
+	Type     string            `json:"type"` // "violation" | "done"
+	Replay   *Replay           `json:"replay,omitempty"`
+	Runs     uint64            `json:"runs,omitempty"`
+	C        map[string]int64  `json:"c,omitempty"`
+	Max      map[string]int64  `json:"max,omitempty"`
+	SigFile  string            `json:"sigfile,omitempty"`
+	Samples  []json.RawMessage `json:"samples,omitempty"`
+	TimedOut bool              `json:"timed_out,omitempty"`
+	Detail   string            `json:"detail,omitempty"`
 }
 
 func envSeed() uint64 {
@@ -272,8 +272,9 @@ type finding struct {
 }
 
 // KNOWN_FINDINGS.txt lines:
-//   known: property=<id> clause=<clause> match=<substring of detail> :: what fails
-//   fixed: property=<id> <commit> <what failed>
+//
+//	known: property=<id> clause=<clause> match=<substring of detail> :: what fails
+//	fixed: property=<id> <commit> <what failed>
 func loadFindings(path string) []finding {
 	b, err := os.ReadFile(path)
 	if err != nil {
@@ -528,24 +529,24 @@ func cmdRun(byID map[string]Engine, args []string) int {
 			samples = samples[:3]
 		}
 		cov := map[string]interface{}{
-			"evaluations":         total.C["evaluations"],
-			"distinct_nontrivial": len(sigs),
-			"rule":                m.Rule,
-			"samples":             samples,
-			"runs":                runsDone,
-			"runs_planned":        runs,
-			"runs_per_hour":       int64(float64(runsDone) / wall * 3600),
+			"evaluations":          total.C["evaluations"],
+			"distinct_nontrivial":  len(sigs),
+			"rule":                 m.Rule,
+			"samples":              samples,
+			"runs":                 runsDone,
+			"runs_planned":         runs,
+			"runs_per_hour":        int64(float64(runsDone) / wall * 3600),
 			"evaluations_per_hour": int64(float64(total.C["evaluations"]) / wall * 3600),
-			"seeds":               fmt.Sprintf("VERIF_SEED=%d; run i uses sha256(seed/engine/i)[:8], i in [0,%d)", *seed, runs),
-			"fault_kinds_fired":   fk,
-			"probes_hit":          pr,
-			"counters":            other,
-			"maxima":              total.Max,
-			"real_components":     m.Real,
-			"stub_components":     m.Stub,
-			"workers":             W,
-			"stopped_by_wall_cap": timedOut,
-			"known_findings_hit":  len(knownHit),
+			"seeds":                fmt.Sprintf("VERIF_SEED=%d; run i uses sha256(seed/engine/i)[:8], i in [0,%d)", *seed, runs),
+			"fault_kinds_fired":    fk,
+			"probes_hit":           pr,
+			"counters":             other,
+			"maxima":               total.Max,
+			"real_components":      m.Real,
+			"stub_components":      m.Stub,
+			"workers":              W,
+			"stopped_by_wall_cap":  timedOut,
+			"known_findings_hit":   len(knownHit),
 		}
 		if sim, ok := total.C["sim_time_ms"]; ok {
 			cov["simulated_time_s"] = float64(sim) / 1000
